@@ -101,6 +101,9 @@ def mixture(
     if result is not NotImplemented:
         return ((1.0, result),)
 
+    if has_unitary(val):
+        return ((1.0, unitary(val)),)
+
     if default is not RaiseTypeErrorIfNotProvided:
         return default
 
